@@ -607,6 +607,14 @@ def render_args(ex, fa):
             v = deref_all(ex, a.payload)
             if isinstance(v, Int) and v.ty == "char":
                 out.append(z3.Extract(7, 0, v.e))
+            elif isinstance(v, Adt) and v.ty not in ("Cow", "String"):
+                # a crate type with its own Display impl: run that impl's MIR into a scratch formatter
+                f = ex.find_impl("fmt", "Display", v.ty)
+                if f is None:
+                    raise Unsupported("no Display impl found for " + v.ty)
+                fm = Formatter()
+                ex.call_fn(f, [Ref(Cell(v)), Ref(Cell(fm))])
+                out += fm.out
             else:
                 out += as_str(ex, v).bytes()
             i += 1
